@@ -113,6 +113,29 @@ def ts1(ctx, pid):
                         seen_terms.append(t)
                         if t == ("p", "node") and name not in ("_set", "_delete"):
                             dup = dup or (f, ev.node, "%s schedules its own node parameter again: _set / _delete already did, a shared node would lose two references for one removal" % name)
+    # a node BUILT by the operation (result of a recursive mutation) may be scheduled only after it was
+    # persisted on that path: otherwise the prune releases a reference that was never taken
+    unp = None
+    for name in FAMILY:
+        f = H(ctx, name)
+        init = _init_state(ctx, f)
+        for p, st in pq.states_init(ctx, f, init):
+            persisted = set()
+            for ev in st.events:
+                if ev.k == "call" and ev.a == "ok" and isinstance(ev.node, ast.Call):
+                    tg = ctx.R.resolve_call(ev.node, f, count=False)[0]
+                    if tg.kind != "def" or not ev.node.args:
+                        continue
+                    t = eng.ev(ev.node.args[0], f, st)
+                    if tg.func.name == "_persist_node":
+                        persisted.add(t)
+                    elif tg.func is prune and t[0] == "call" and t[1].startswith(HEX + ".") and t[1].split(".")[-1] in FAMILY:
+                        if t not in persisted:
+                            unp = unp or (f, ev.node, "`%s` is scheduled for pruning although it was built by this operation and not persisted on this path (its reference was never counted)" % tstr(t)[:50])
+    if unp:
+        ctx.bad("built-node-persisted-before-prune:HexaryTrie", unp[0].loc(unp[1]), unp[2], rule="TS2")
+    else:
+        ctx.ok("built-node-persisted-before-prune:HexaryTrie", "trie/hexary.py", "a node produced by a recursive mutation is pruned only after _persist_node stored and counted it", rule="TS2")
     c = "scheduled-once:HexaryTrie"
     if dup:
         ctx.bad(c, dup[0].loc(dup[1]), dup[2])
@@ -240,6 +263,25 @@ def _check_complete_pruning(ctx, f):
                                     ok = True
                         if not ok:
                             probs.append("a db entry is deleted on a path that does not assume ref_count[key] - prunes <= 0")
+    # the count that is kept is the remaining count
+    stores = [e for e in ctx.E.primitives(f) if e.state == "RC" and e.op == "W" and e.meth != "aug"]
+    rc = ("attr", ("self",), "_ref_count")
+    badstore = None
+    for p, st in pq.states(ctx, f, unroll=1):
+        for ev in st.events:
+            if ev.k == "stmt" and any(e.node is ev.node for e in stores):
+                e = [e for e in stores if e.node is ev.node][0]
+                vt = eng.ev(e.value, f, st)
+                kt = eng.ev(e.key, f, st)
+                want = ("bin", "-", ("sub", rc, kt), None)
+                okv = vt == C(0) or (vt[0] == "bin" and vt[1] == "-" and vt[2] == ("sub", rc, kt) and vt[3][0] == "sub" and vt[3][2] == C(1)
+                                     and vt[3][1][0] == "iter")
+                if not okv:
+                    badstore = badstore or (e, vt)
+    if badstore:
+        ctx.bad("remaining-count:HexaryTrie._complete_pruning", badstore[0].where(), "the count kept for a node is `%s`; it must be the old count minus the pending prunes" % tstr(badstore[1])[:60], rule="EFF1")
+    elif stores:
+        ctx.ok("remaining-count:HexaryTrie._complete_pruning", f.loc(), "the stored count is ref_count[key] - pending[key]", rule="EFF1")
     c = "delete-iff-unreferenced:HexaryTrie._complete_pruning"
     if probs:
         ctx.bad(c, f.loc(), probs[0], rule="EFF1")
